@@ -8,10 +8,12 @@
 #include <etl/_mdspan/extents.hpp>
 #include <etl/_mdspan/is_extents.hpp>
 #include <etl/_mdspan/layout.hpp>
+#include <etl/_mdspan/layout_mapping_alike.hpp>
 #include <etl/_span/span.hpp>
 #include <etl/_type_traits/is_convertible.hpp>
 #include <etl/_type_traits/is_nothrow_constructible.hpp>
 #include <etl/_utility/as_const.hpp>
+#include <etl/_utility/cmp_not_equal.hpp>
 #include <etl/_utility/index_sequence.hpp>
 
 namespace etl {
@@ -106,9 +108,44 @@ public:
     }
 
     template <typename OtherMapping>
-    friend constexpr auto operator==(mapping const&, OtherMapping const&) noexcept -> bool;
+        requires(detail::layout_mapping_alike<OtherMapping> and (rank == OtherMapping::extents_type::rank())
+                 and OtherMapping::is_always_strided())
+    friend constexpr auto operator==(mapping const& lhs, OtherMapping const& rhs) noexcept -> bool
+    {
+        // [mdspan.layout.stride.obs]: equal extents, OFFSET(rhs) == 0 and equal strides
+        if (not(lhs.extents() == rhs.extents())) {
+            return false;
+        }
+        if (offset_of(rhs) != size_t(0)) {
+            return false;
+        }
+        if constexpr (rank > 0) {
+            for (rank_type r{0}; r < rank; ++r) {
+                if (cmp_not_equal(lhs.stride(r), rhs.stride(r))) {
+                    return false;
+                }
+            }
+        }
+        return true;
+    }
 
 private:
+    // [mdspan.layout.stride.expo] OFFSET(m): m() for rank 0, 0 for an empty index space, else m(0, ..., 0)
+    template <typename OtherMapping>
+    [[nodiscard]] static constexpr auto offset_of(OtherMapping const& m) noexcept -> size_t
+    {
+        if constexpr (rank == 0) {
+            return static_cast<size_t>(m());
+        } else {
+            if (m.extents().fwd_prod_of_extents(rank) == size_t(0)) {
+                return size_t(0);
+            }
+            return [&]<size_t... Is>(index_sequence<Is...> /*seq*/) {
+                return static_cast<size_t>(m(((void)Is, typename OtherMapping::extents_type::index_type(0))...));
+            }(make_index_sequence<rank>());
+        }
+    }
+
     TETL_NO_UNIQUE_ADDRESS extents_type _extents{};
     TETL_NO_UNIQUE_ADDRESS array<index_type, rank> _strides{};
 };
